@@ -96,13 +96,13 @@ def gen_ops(r, backend, n, L, measure=True, preps=True, channels=True, dagger=0.
             else:
                 out.append({"op": "LossChannel", "p": [rnd(r, 0.3, 1.0)], "m": [r.randrange(n)]})
         elif x < 0.82 and preps:
-            k = r.choice(["Coherent", "Squeezed", "Vacuum", "Thermal", "DisplacedSqueezed"] + (["Fock"] if backend == "fock" else []))
+            k = r.choice(["Coherent", "Squeezed", "Vacuum", "Thermal", "DisplacedSqueezed"] + (["Fock", "Catstate"] if backend == "fock" else []))
             if backend == "fock" and k == "Thermal":
                 k = "Coherent"
             s = 0.4 if small else 1.0
             p = {"Coherent": [rnd(r, 0, 0.7 * s), rnd(r, 0, 6.2)], "Squeezed": [rnd(r, -0.5 * s, 0.5 * s), rnd(r, 0, 6.2)], "Vacuum": [],
                  "Thermal": [rnd(r, 0, 0.8)], "DisplacedSqueezed": [rnd(r, 0, 0.5 * s), rnd(r, 0, 6.2), rnd(r, -0.4 * s, 0.4 * s), rnd(r, 0, 6.2)],
-                 "Fock": [r.randint(0, 2)]}[k]
+                 "Fock": [r.randint(0, 2)], "Catstate": [rnd(r, 0.2, 0.7), rnd(r, 0, 3.1), r.choice([0, 1])]}[k]
             out.append({"op": k, "p": p, "m": [r.randrange(n)]})
         elif measure:
             kinds = meas_kinds or (["MeasureX", "MeasureP", "MeasureHomodyne", "MeasureHeterodyne"] if backend != "fock"
